@@ -423,11 +423,19 @@ impl Core {
     pub fn open_with_key_pair(&mut self) -> Value {
         let d = self.disk.clone();
         let before = d.ops();
+        // every kind of key pair is refused in open mode: the stored one, its public half, an
+        // unrelated one, the public half of an unrelated one (in turn, by the storage's age)
+        let kp = match before % 4 {
+            0 => test_key_pair(),
+            1 => PartialKeypair { public: test_key_pair().public, secret: None },
+            2 => other_key_pair(5),
+            _ => PartialKeypair { public: other_key_pair(5).public, secret: None },
+        };
         let r = catch_unwind(AssertUnwindSafe(|| {
             block_on(async {
                 let storage = d.storage().await;
                 HypercoreBuilder::new(storage)
-                    .key_pair(test_key_pair())
+                    .key_pair(kp)
                     .open(true)
                     .build()
                     .await
